@@ -80,6 +80,7 @@ where StandardNormal: Distribution<F>, Exp1: Distribution<F>, Open01: Distributi
                 let (loc, scale) = locscales[si % locscales.len()];
                 let loc = if has_loc(fam) { loc } else { F::zero() };
                 let scale = if *fam == "Normal" && si % 5 == 0 { -scale } else { scale };   // negative std_dev is documented as allowed
+                let scale = if matches!(*fam, "Normal" | "LogNormal") && si % 7 == 3 { F::zero() } else { scale };  // sigma = 0 is a valid (degenerate) scale
                 let Some(d1) = build::<F>(fam, sh, loc, scale) else { continue };
                 let _ = &mut rng0;
                 // R1 / R2: exact homogeneity under 2^k (not for LogNormal: affine only in log space)
